@@ -477,6 +477,17 @@ func gen(out *vc.Out, r *vc.Rand, thorough bool) {
 		execCase(out, "copy lim - "+fmtReads("rd", rd, false)+" "+fmtWrites("wr", nil))
 		out.Count("copy:cancel")
 	}
+	// the periodic context check (every ContextCheckInterval = 10000 iterations): the context is cancelled while
+	// data still flows and nothing closes the endpoints; the loop must leave through the check, counting once
+	for _, spec := range [][2]int{{10005, 5000}, {10005, 0}, {10002, 9998}, {20010, 15000}, {9999, 10}} {
+		n, at := spec[0], spec[1]
+		rd := make([]readEv, n)
+		for i := range rd {
+			rd[i] = readEv{data: genData(r, 1+i%3), err: "n", canc: i == at}
+		}
+		execCase(out, "copy lim - "+fmtReads("rd", rd, false)+" "+fmtWrites("wr", nil))
+		out.Count("copy:ctx-check")
+	}
 	// --- bridge: both directions concurrently, real lifecycle
 	brounds := 60
 	if thorough {
